@@ -158,6 +158,11 @@ def _case(draw):
     psub = draw(gen.subtypes)
     base, labels = draw(gen.base_shapes(kind))
     base = gen.no_leafless(base)
+    if kind == 'multiline' and base and draw(st.integers(0, 3)) == 0:
+        # more parts than coordinates: a run of empty lines in front of (or behind) the real ones
+        k = draw(st.integers(1, 8))
+        base = ([[] for _ in range(k)] + base) if draw(st.booleans()) else (base + [[] for _ in range(k)])
+        labels = labels + ['empty-lines-added']
     ext = gen.extent_of(kind, [base]) + 4
     # the transform must be valid for both subtypes: use the more restrictive one; half steps need fractions
     strict = min((ssub, psub), key=lambda s: gen.BOUND[s])
